@@ -616,6 +616,45 @@ func init() {
 				runMix(c, "c17", &k, &mixCase{Primary: mustJSON(parts(pm, "P")), Mixins: []string{mustJSON(parts(mm, "M1"))}}, nil, c17Check)
 			}
 		}
+		// scalar fields: every presence pattern of the fill-if-empty fields of one object, independently on the primary and on
+		// two mixins (each field has its own guard in the code; a guard testing a neighbouring field shows only when the
+		// fields are present independently of each other)
+		scalarTables := []struct {
+			at     []string // where the object sits ("" = the document itself)
+			fields []string
+		}{
+			{[]string{"info", "contact"}, []string{"name", "url", "email"}},
+			{[]string{"info", "license"}, []string{"name", "url"}},
+			{[]string{"info"}, []string{"title", "description", "termsOfService", "version"}},
+			{nil, []string{"host", "basePath"}},
+			{[]string{"externalDocs"}, []string{"description", "url"}},
+		}
+		c.Bounds["scalar_tables"] = "contact{name,url,email}, license{name,url}, info{title,description,termsOfService,version}, document{host,basePath}, externalDocs{description,url}: every presence subset on primary x mixin 1 x mixin 2"
+		for _, st := range scalarTables {
+			n := 1 << len(st.fields)
+			mk := func(mask int, tag string) string {
+				d := J{"swagger": "2.0"}
+				o := d
+				for _, seg := range st.at {
+					next := J{}
+					o[seg] = next
+					o = next
+				}
+				for fi, f := range st.fields {
+					if mask&(1<<fi) != 0 {
+						o[f] = f + "-" + tag
+					}
+				}
+				return mustJSON(d)
+			}
+			for pm := 0; pm < n; pm++ {
+				for m1 := 0; m1 < n; m1++ {
+					for m2 := 0; m2 < n; m2++ {
+						runMix(c, "c17", &k, &mixCase{Primary: mk(pm, "P"), Mixins: []string{mk(m1, "M1"), mk(m2, "M2")}}, nil, c17Check)
+					}
+				}
+			}
+		}
 		c17Sequences(c)
 	}, Replay: mixReplay(c17Check)})
 }
